@@ -52,7 +52,7 @@ def recStr (withDate : Bool) (r : Iso.DirRec) : String :=
   s!"{r.ext}/{r.loc}/{r.size}/{if withDate then hx r.date else "-"}/{r.flags}/{r.volSeq}/{b01 r.isSelf}{b01 r.isParent}/{nm}/" ++
     joinOr "+" (r.susp.map suspStr)
 
-def isoCfg (args : List String) : Iso.Cfg := ⟨flag args "er", flag args "jol"⟩
+def isoCfg (args : List String) : Iso.Cfg := { er := flag args "er", joliet := flag args "jol", utf16 := argNatD args "u16" 0 != 0 }
 
 def fragsArg (args : List String) : List Sqfs.Frag :=
   let st := natList ((arg args "starts").getD "-")
